@@ -205,6 +205,10 @@ def run(ctx):
         o = dict(o)
         o["rule"] = "C17.P3"
         ctx.obligations.append(o)
+    from .. import report
+    from .c06 import check_counter
+
+    report.share(ctx, "C17.P3", check_counter)  # two senders never use the same system bytes (the peer assembles blocks by them)
     check_bytequeue_wait(ctx, "C17.W1")
     from .c04 import check_byte_queue
 
